@@ -76,7 +76,15 @@ const (
 	c06StuckMax      = 3                // after so many settles that did not converge (re-check included) FILE edits are not waited for any more
 )
 
-var c06Stuck int // settles that did not converge, re-check included
+var c06Stuck int // settles that did not converge, re-check included (user file edited in place only)
+
+// Worlds whose user file is also REPLACED (new file written next to it and renamed over it: sed -i, editors,
+// configuration management).  c06ReplStuck: settles that did not converge after an edit that FOLLOWED a replace
+// (counted apart: a tree that loses its file watch with the replaced inode must not stop the in-place worlds);
+// after c06ReplStuckMax of them no file is replaced any more (each costs the full bounded time twice).
+var c06ReplStuck int
+
+const c06ReplStuckMax = 1
 
 var c06T0 = time.Date(2031, 5, 6, 7, 8, 9, 0, time.UTC) // virtual time of tick 0 (JWT clock only)
 
@@ -227,6 +235,9 @@ type c06World struct {
 	burst      int                    // FILE mode: edits since the source was last settled
 	maxBurst   int                    // FILE mode: edits in a row before the last settle
 	probe      [2]string              // FILE mode: name and password of the probe user written by the last edit ("": none pending)
+	replaceOK  bool                   // FILE mode: this world's user file may also be replaced (rename) instead of written in place
+	replaces   int                    // FILE mode: number of times the running generation's user file was replaced
+	afterRepl  bool                   // FILE mode: the running generation's user file was edited (any way) after it had been replaced
 	editNotes  []string
 	syncCh     chan map[string]string // ETCD mode: the channel the running generation's watcher reads
 	super      *supervisor.Supervisor
@@ -425,6 +436,7 @@ func (w *c06World) build(cfg, mat, users vx.M, r *rand.Rand) {
 			if w.buildErr == "" {
 				// the new generation has read its file when it was created: nothing is pending
 				w.userFile, w.probe, w.burst = p, [2]string{}, 0
+				w.replaces, w.afterRepl = 0, false // ... and it watches the file that is there now
 			}
 		}()
 		if mode == "file" {
@@ -565,8 +577,10 @@ func (w *c06World) deliver(kvs map[string]string) error {
 
 // edit rewrites the user file of the running generation so that it holds `table` (plus somebody else's entry and,
 // as the LAST line, a fresh probe user).  How: one truncating write (os.WriteFile); appended to the file when
-// nothing is removed; truncated and written entry by entry in several chunks.  Always the same inode, as htpasswd(1)
-// does; every write ends at a line boundary and the file stays far below one page.
+// nothing is removed; truncated and written entry by entry in several chunks.  These keep the inode, as htpasswd(1)
+// does; every write ends at a line boundary and the file stays far below one page.  In the worlds with replaceOK
+// (a few behaviour instances) half of the edits REPLACE the file instead: the new content is written to a temporary
+// file in the same directory which is renamed over the user file (sed -i, editors, configuration management).
 func (w *c06World) edit(table vx.M, r *rand.Rand) error {
 	if w.userFile == "" {
 		return fmt.Errorf("edit of the user file of a configuration without FILE mode")
@@ -588,8 +602,21 @@ func (w *c06World) edit(table vx.M, r *rand.Rand) error {
 	if style == 1 && !superset {
 		style = 2 * r.Intn(2)
 	}
+	if w.replaceOK && c06ReplStuck < c06ReplStuckMax && r.Intn(2) == 0 {
+		style = 3
+	}
+	if w.replaces > 0 {
+		w.afterRepl = true
+	}
 	var err error
 	switch style {
+	case 3: // new file, renamed over the user file
+		tmp := fmt.Sprintf("%s.new-%d", w.userFile, w.edits)
+		if err = os.WriteFile(tmp, []byte(strings.Join(append(append([]string{}, lines...), probeLine), "\n")+"\n"), 0o600); err == nil {
+			err = os.Rename(tmp, w.userFile)
+		}
+		w.replaces++
+		w.editNotes = append(w.editNotes, "replace")
 	case 0: // truncate + one write
 		err = os.WriteFile(w.userFile, []byte(strings.Join(append(append([]string{}, lines...), probeLine), "\n")+"\n"), 0o600)
 		w.editNotes = append(w.editNotes, "rewrite")
@@ -720,13 +747,13 @@ func c06NoSg() vx.M {
 
 // c06Recheck: a settle did not converge.  The state-changing steps of the behaviour up to and including that settle
 // are run again on a fresh world, the last settle with twice the time.
-func c06Recheck(cfg vx.M, rep, now0 int, steps []vx.M) (*c06World, bool, time.Duration) {
+func c06Recheck(cfg vx.M, rep, now0 int, replaceOK bool, steps []vx.M) (*c06World, bool, time.Duration) {
 	w := c06NewWorld(cfg, rep)
 	if w.v == nil || w.buildErr != "" {
 		w.close()
 		return nil, false, 0
 	}
-	w.now = now0
+	w.now, w.replaceOK = now0, replaceOK
 	conv, took := true, time.Duration(0)
 	for si, st := range steps {
 		if vx.Str(st["a"]) == "present" {
@@ -1448,7 +1475,7 @@ func TestVerifC06Replay(t *testing.T) {
 		sum := sha256.Sum256(c.body)
 		out.Raw(vx.M{"k": "case", "line": ln, "beh": bi, "step": si + 1, "rep": rep, "cfg": w.cfg, "mat": w.mat, "gen": w.gen,
 			"history": w.history, "edits": w.edits, "settled": w.burst == 0, "burst": w.burst, "lastBurst": w.maxBurst, "how": w.editNotes,
-			"now": w.now, "users": map[string]string{"uPlain": w.users["uPlain"], "uColon": w.users["uColon"], "uBlank": w.users["uBlank"]},
+			"replaces": w.replaces, "afterReplace": w.afterRepl, "now": w.now, "users": map[string]string{"uPlain": w.users["uPlain"], "uColon": w.users["uColon"], "uBlank": w.users["uBlank"]},
 			"req": areq, "exp": st["exp"], "v": st["v"], "impl": st["impl"], "res": res, "tag": obs.tag, "panic": obs.panicV,
 			"result": obs.result, "wire": wire, "bodyLen": len(c.body), "bodySha": hex.EncodeToString(sum[:6]),
 			"chunked": chunked && len(c.body) > 0, "mutations": c.note})
@@ -1467,6 +1494,8 @@ func TestVerifC06Replay(t *testing.T) {
 				continue
 			}
 			w.now = vx.Int(beh[0]["now"])
+			// one in six instances of a behaviour that edits the user file: the file is also replaced
+			w.replaceOK = vx.Rand(c06Hash("replace", cfg, rep, bi)).Intn(6) == 0
 			emit(vx.M{"ev": "reset", "cfg": cfg, "now": w.now})
 		steps:
 			for si, st := range beh[1:] {
@@ -1496,7 +1525,7 @@ func TestVerifC06Replay(t *testing.T) {
 						recheck := ""
 						if !conv {
 							recheck = "failed"
-							if w2, conv2, took2 := c06Recheck(cfg, rep, vx.Int(beh[0]["now"]), beh[1:si+2]); w2 != nil {
+							if w2, conv2, took2 := c06Recheck(cfg, rep, vx.Int(beh[0]["now"]), w.replaceOK, beh[1:si+2]); w2 != nil {
 								w.close()
 								w = w2
 								if conv2 {
@@ -1504,13 +1533,15 @@ func TestVerifC06Replay(t *testing.T) {
 								}
 								took = took2
 							}
-							if !conv {
+							if !conv && w.afterRepl {
+								c06ReplStuck++
+							} else if !conv {
 								c06Stuck++
 							}
 						}
 						ln := emit(vx.M{"ev": "settle", "conv": conv, "ms": took.Milliseconds()})
 						out.Raw(vx.M{"k": "settle", "line": ln, "beh": bi, "rep": rep, "step": si + 1, "conv": conv, "us": took.Microseconds(),
-							"recheck": recheck, "burst": w.maxBurst, "how": w.editNotes})
+							"recheck": recheck, "burst": w.maxBurst, "how": w.editNotes, "replaces": w.replaces, "afterReplace": w.afterRepl})
 						if !conv {
 							// the file has not been touched for the bounded time and its last line is still not in effect: which
 							// table is?  The right credentials of every user in both versions are presented (no prediction
@@ -1524,6 +1555,10 @@ func TestVerifC06Replay(t *testing.T) {
 									present(w, bi, si, rep, vx.M{"hv": hv, "auth": "basic", "tok": c06NoTok(), "ck": c06NoTok(), "sg": c06NoSg(),
 										"bs": vx.M{"p": true, "user": u, "ver": ver, "pw": "right", "b64": true}}, vx.M{})
 								}
+							}
+							if w.afterRepl { // this generation will not see its user file again: every further settle would take the full time
+								out.Raw(vx.M{"k": "skipped", "beh": bi, "rep": rep, "step": si + 1, "why": "edits after the user file was replaced do not converge"})
+								break steps
 							}
 						}
 					}
